@@ -8,6 +8,17 @@ settings of `parse_jacoco_xml_report` and `BytesStart::attributes()`; `parseByte
 carries every layout choice the reader tolerates; a `Serialisation r` of a report `r` is such a
 document whose events form a well-formed event-level serialisation of `r`.
 
+Encoding. A `Serialisation` is a UTF-8 (or ASCII) serialisation: `jacocoXml s` is the byte string in
+which markup bytes are ASCII and names are the UTF-8 bytes of the report's names. /repo builds
+quick-xml WITHOUT its `encoding` feature: the reader never transcodes, the `encoding="…"` of the XML
+declaration is ignored, and only a UTF-8 BOM is removed. A report written in another encoding is
+therefore outside `C10_fidelity_bytes` (review item 35): a UTF-16 report is one `Text` event for
+the reader (no byte `<` followed by a name) and gives `Ok([])` – a silent empty result, recorded as
+an observation, harness `ties.encoding.utf16.*` –, an ISO-8859-1 report whose names are ASCII reads
+like its UTF-8 twin, and one with a non-ASCII name is `Err(Parse)` as soon as the parser decodes
+that name (`Decoder::decode` → `Utf8Error`) – error-or-empty, never a wrong record
+(`ties.encoding.latin1.*`).
+
 What remains trusted below this level: that `events` IS quick-xml's reader (tied event by event,
 attribute list by attribute list, on generated documents and on byte-level mutations of them,
 valid UTF-8 or not: harness stream `bytes.*`), `BufReader`'s chunking, and UTF-8 decoding of names
@@ -34,8 +45,10 @@ theorem C10_events_of_bytes {r : Report} (s : Serialisation r) :
     Bytes.events (jacocoXml s) = eventsOf s :=
   events_jacocoXml s
 
-/-- Fidelity at byte level: for every report `r` and every byte-level serialisation of it (all
-layout choices of the bytes, all serialisation choices of Props/C10.lean) in which every method
+/-- Fidelity at byte level: for every report `r` and every byte-level UTF-8 serialisation of it
+(`jacocoXml s`: ASCII markup, names as their UTF-8 bytes; all layout choices of the bytes, all
+serialisation choices of Props/C10.lean; a report in UTF-16 or ISO-8859-1 is NOT such a
+serialisation – see the header for what the reader does with one) in which every method
 has a `line` and every branch vector fits `cap`, `parse_jacoco_xml_report` on the BYTES returns
 exactly the records the report denotes. -/
 theorem C10_fidelity_bytes (cap : Nat) {r : Report} (s : Serialisation r)
@@ -79,8 +92,11 @@ example : parseBytes exBytes
   decide +kernel
 
 /-- tokenizer errors and attribute syntax errors on bytes: `<a></b>` is `Start(a)` then an error;
-`<a b>` tokenises, and the attribute iterator fails at `b` (the pair of empty attributes) -/
+`<a b>` tokenises, and the attribute iterator fails at `b` (the empty-key marker); a repeated key
+is kept twice (the parser takes the first / for `<line>` the last) -/
 example : Bytes.events [60, 97, 62, 60, 47, 98, 62] = [.start [97] [], .bad]
-    ∧ Bytes.events [60, 97, 32, 98, 62] = [.start [97] attrErr] := by decide +kernel
+    ∧ Bytes.events [60, 97, 32, 98, 62] = [.start [97] attrErr]
+    ∧ Bytes.events [60, 97, 32, 98, 61, 34, 34, 32, 98, 61, 39, 120, 39, 47, 62]
+        = [.empty [97] [([98], []), ([98], [120])]] := by decide +kernel
 
 end Grcov.Props.C10
